@@ -1111,6 +1111,11 @@ def gen_keystore(rng, tier):
             c["kind"] = "wellformed"
         text = "\n".join(lines)
     c["text"] = text
+    # history: another keystore with the SAME key id but other key material parsed first in the same process
+    # (regenerated key, another host's file): the result depends on this keystore's stored values only
+    prior = (len(text) + sum(kid)) % 5 < 2
+    if prior:
+        c["prior"] = keystore_text(kid, bytes(x ^ 0x5A for x in d1) + b"p", d2[::-1] + b"q", core.Rng(len(text)), "esx")
     return c
 
 
@@ -1125,6 +1130,11 @@ class KeystoreSuite(Suite):
 
     def impl(self, case):
         from dissect.hypervisor.util.envelope import KeyStore
+        if case.get("prior"):
+            try:
+                KeyStore.from_text(case["prior"])
+            except Exception:  # noqa: BLE001
+                pass
         try:
             ks = KeyStore.from_text(case["text"])
         except Exception as e:  # noqa: BLE001
